@@ -230,7 +230,7 @@ func (E *Engine) funcValueSpec(st *State, v ssa.Value) *FuncSpec {
 		}
 	}
 	if p, ok := v.(*ssa.Parameter); ok {
-		if s, ok := E.CS.Funcs["paramfn:"+E.cur.key+"."+p.Name()]; ok {
+		if s, ok := E.CS.Funcs["paramfn:"+E.cur.fn.Name()+"."+p.Name()]; ok {
 			return s
 		}
 	}
